@@ -18,9 +18,36 @@ MIX = {"sel2d": 3, "window": 2, "fillna_w": 2, "fillna": 1, "dropna": 1, "vcat":
 ORACLE_KEYS = ("C01",)
 
 
+def planted():
+    """deterministic histories for the clauses random histories rarely reach: a write that is REFUSED (two vectors over one
+    caller tuple) changes nothing - not the contents, not the dtype, not the name - whatever value it carried (a None, a wider
+    kind, a wrong length) and whatever key form it used; a column replaced through the indexed accessor (t.col__N = v) is a
+    snapshot like any other; rows, 2-D selections and window results are objects of their own"""
+    ps = []
+    keys = [["int", 0], ["slice", 0, 2, None], ["mask", [True, False, True]], ["idx", [1, 0]], ["idx", [-1]]]
+    for t in (0, 1):
+        n = 3 if t == 0 else 2
+        for key in keys:
+            if key[0] == "mask":
+                key = ["mask", key[1][:n]]
+            for val in (["s", None], ["s", 2.5], ["s", 7], ["l", [None, 2.5]], ["l", [1.5]], ["l", [None]]):
+                ps.append([["newvec", [], "a", t], ["newvec", [], "b", t], ["setv", 0, key, val], ["read", 0], ["setv", 1, key, val],
+                           ["drop", 1], ["setv", 0, key, val]])
+    tab = ["newtab_dict", [["a", [1, 2, 3]], ["b", [4, 5, 6]]]]
+    for ci in (0, 1):
+        ps.append([["newvec", [7, 8, 9], "v", None], tab, ["setattr", 1, ci, ["slot", 0], True], ["setv", 0, ["int", 0], ["s", 99]],
+                   ["colview", 1, ci], ["setv", 2, ["int", 1], ["s", -5]], ["rename", 0, "z"], ["read", 1]])
+        ps.append([tab, ["sel2d", 0, [None, None, None], ci, False], ["setv", 1, ["int", 0], ["s", 99]], ["read", 0],
+                   ["sett", 0, ["cell", 1, ci, 77]], ["read", 1]])
+        ps.append([tab, ["window", 0, ci], ["colview", 1, 0], ["setv", 2, ["int", 0], ["s", 99]], ["read", 0], ["rename", 2, "q"],
+                   ["read", 0]])
+    return [{"prog": p} for p in ps]
+
+
 def streams(rng, tier):
     n = 500 if tier == "quick" else 3000
-    return [("histories", [{"prog": H.gen_program(rng, rng.randint(8, 40), MIX)} for _ in range(n)])]
+    return [("planted", planted()),
+            ("histories", [{"prog": H.gen_program(rng, rng.randint(8, 40), MIX)} for _ in range(n)])]
 
 
 def observe(case):
